@@ -158,7 +158,11 @@ func (s *specState) nextRecord() (rec string, ok bool, bad bool) {
 			if strings.Contains(val, "\\x") || strings.Contains(val, "\\u") || strings.Contains(val, "\r") {
 				panic(ctlUnsupported{})
 			}
-			val = specUnescape(val)
+			// a value with a raw line feed is taken verbatim, as the -v option does (the property is
+			// silent on escape processing; the whole value must arrive)
+			if !strings.Contains(val, "\n") {
+				val = specUnescape(val)
+			}
 			switch {
 			case name == "NR" || name == "FNR":
 				n, err := strconv.Atoi(val)
